@@ -17,7 +17,7 @@ import (
 
 func init() {
 	Registry["C15"] = Set{
-		Explanation: "Decides structural clauses of remote access control: H1 in every handshake role (Start, Accept incl. its Join branch, Join) each success return is dominated by a digest comparison whose mismatch edge fails and whose expected value depends both on the cookie and on a nonce generated locally in this invocation (value provenance through the hash object's Write/Sum state and fmt.Sprintf arguments) — a comparison without a local nonce accepts a replayed transcript; H2 the effective cookie reaches the handshake: the Cookie of the options passed to Accept/Start/Join may-flow (field-based heap flow) from the acceptor's / route's own cookie option and from the node cookie as fallback; H3 the Peer* fields of the handshake result originate from the peer's decoded Introduce and the Node* fields from the local options, field for field, in both roles, and the dialler compares the introduced name with the name it dialled; H4 NetworkFlags.MarshalEDF/UnmarshalEDF use the same bit for each field; H5 a remote spawn / application start is served only after the permission lookup for (name, authenticated peer name) succeeded, and both ends test the corresponding flag before sending/serving; H6 the requester's environment is copied into a request bound for another node only under the corresponding ExposeEnv* security option. Added while probing: H1 counts the cookie only as a direct input of the compared digest (a digest of the cookie that was sent to the peer is public). H2b the node cookie overwrites an endpoint's own cookie only on the edge that found it empty; H5 the capability flags are evaluated path-sensitively (effect unreachable under {Enable, !capability}, reachable under {Enable, capability}), the permission check is made in the name of the connection's peer, and Enable*/Disable* record true/false for each named node (sibling agreement of the four table writers). H1 also: a message carrying a digest of (peer-chosen input, cookie) is written only behind the match edge of a cookie-dependent digest check of that peer (no digest oracle for an unauthenticated peer). H7 the flags given to handshake.Accept may-flow from the acceptor's own flags and from the node's configured flags; H7b in the loop over explicitly configured acceptors every option that has a node-level counterpart (Flags, MaxMessageSize) is completed from the node's options (shape-dependent: moving the defaulting elsewhere needs the rule to follow). H8 the connection constructor refuses a handshake result whose PeerCreation is zero (the result of a Join, which has no Hello/Introduce exchange and can be replayed) before it builds the connection.",
+		Explanation: "Decides structural clauses of remote access control: H1 in every handshake role (Start, Accept incl. its Join branch, Join) each success return is dominated by a digest comparison whose mismatch edge fails and whose expected value depends both on the cookie and on a nonce generated locally in this invocation (value provenance through the hash object's Write/Sum state and fmt.Sprintf arguments) — a comparison without a local nonce accepts a replayed transcript; H2 the effective cookie reaches the handshake: the Cookie of the options passed to Accept/Start/Join may-flow (field-based heap flow) from the acceptor's / route's own cookie option and from the node cookie as fallback; H3 the Peer* fields of the handshake result originate from the peer's decoded Introduce and the Node* fields from the local options, field for field, in both roles, and the dialler compares the introduced name with the name it dialled; H4 NetworkFlags.MarshalEDF/UnmarshalEDF use the same bit for each field; H5 a remote spawn / application start is served only after the permission lookup for (name, authenticated peer name) succeeded, and both ends test the corresponding flag before sending/serving; H6 the requester's environment is copied into a request bound for another node only under the corresponding ExposeEnv* security option. Added while probing: H1 counts the cookie only as a direct input of the compared digest (a digest of the cookie that was sent to the peer is public). H2b the node cookie overwrites an endpoint's own cookie only on the edge that found it empty; H5 the capability flags are evaluated path-sensitively (effect unreachable under {Enable, !capability}, reachable under {Enable, capability}), the permission check is made in the name of the connection's peer, and Enable*/Disable* record true/false for each named node (sibling agreement of the four table writers). H1 also: a message carrying a digest of (peer-chosen input, cookie) is written only behind the match edge of a cookie-dependent digest check of that peer (no digest oracle for an unauthenticated peer). H7 the flags given to handshake.Accept may-flow from the acceptor's own flags and from the node's configured flags; H7b in the loop over explicitly configured acceptors every option that has a node-level counterpart (Flags, MaxMessageSize) is completed from the node's options (shape-dependent: moving the defaulting elsewhere needs the rule to follow). H8 the connection constructor refuses a handshake result whose PeerCreation is zero (the result of a Join, which has no Hello/Introduce exchange and can be replayed) before it builds the connection. H9 a new entry of the spawn / application-start allow-lists is complete when LoadOrStore publishes it: no field store and no map insertion into it (or into a merge of it with the entry found) is reachable after the publication — an empty node list means 'any node', so an entry published empty and restricted afterwards lets any node through in between.",
 		NotDecided: []string{
 			"cryptographic strength of the digest construction, TLS",
 			"enable/disable histories of the permission tables at run time (decided: the lookup dominates the effect, is made for the peer's name, Enable* records true and Disable* records false)",
@@ -38,6 +38,7 @@ func runC15(p *load.Program, r *core.Report) {
 	c15CookieOverride(p, r)
 	c15Env(p, r)
 	c15NoConnectionFromJoin(p, r)
+	initBeforePublish(p, r, "C15.H9 allow-list-entry-complete-when-published", "C15.H9", 2, []string{"node"}, func(t string) bool { return t == "enableSpawn" || t == "enableAppStart" })
 }
 
 // provenance tags of a value: "cookie", "nonce", "peer", "local"
